@@ -53,6 +53,22 @@ theorem C17_parent_first (cfg : Cfg) (mols : List Mol) (wfs : AllWF mols) (sched
       (parent = none → c = m.first) :=
   Proofs.Walk.parent_first cfg mols wfs sched i parent c h
 
+/-- **The flag hypothesis is needed** (excluded point `build ∧ supplied`, reachable with `-c` together
+with `-mc`, see `C04_combined_counterexample` and KNOWN-FINDING `combined-c-and-mc`): for the chain
+0-1-2 with residue 0 supplied and residue 1 flagged `build` although it carries a position, the very
+first trial of the run is issued for a residue that is positioned — the conclusion `eng i c = none` of
+`C17_parent_first` fails, the real engine then double-counts the residue (C16) and crashes on the next
+rewind or retry. -/
+theorem C17_parent_first_needs_flags :
+    ∃ mols : List Mol, ¬ AllWF mols ∧ ∃ i p c, (init mols).trial mols = some (i, p, c) ∧
+      (init mols).eng i c ≠ none := by
+  refine ⟨[⟨[0, 1, 2], [(0, 1), (1, 2)], 0, [1, 2], [(0, 900), (1, 901)], false⟩], ?_, 0, some 0, 1, by decide, by decide⟩
+  intro h
+  have hw := h 0 (by decide) _ rfl
+  have := hw.buildNoPos 1 (by decide)
+  revert this
+  decide
+
 /-- **Others fixed.**  From ANY state on (no hypothesis on the input), a molecule that is not, or no
 longer, in the list of molecules to build keeps every position it has, whatever the rest of the
 schedule is — completed molecules, fully supplied molecules and ignored molecules alike. -/
